@@ -48,6 +48,21 @@ CLAIMS = {
         technique="flow-insensitive field-based taint propagation over the call graph with a libc model, plus "
                   "must-fact range dominance at the sink",
         design="5 C13"),
+    "C07": dict(
+        level="proof",
+        text="For each of Base32, Base64, Base64u (the unit the Makefile generates) and Base128 the stated contract is "
+             "decided for all inputs and capacities at once: alphabet tables equal the documented sets (2^k distinct "
+             "characters, no dot, no NUL) and every emitted character is a look-up with an index proven < 2^k; the reverse "
+             "table is built as rev[cb[i]] = i (Base32 also from the upper-case twin) before any read; the decoder's bit "
+             "selection composed with the encoder's bit placement is the identity on all 8*blocksize bits (bit-level "
+             "provenance over every path of the loop bodies, no values enumerated); every encoder exit, including the "
+             "back-off exits, emits ceil(8*bytes/k) characters and reports the loop counters, and the decoder yields exactly "
+             "n bytes from the characters of an n-byte tail; every store is dominated by its capacity test on the path. "
+             "Proof is relative to clang's constant evaluation and the checker's own soundness; int counter overflow above "
+             "2 GB is outside it.",
+        technique="symbolic enumeration of all CFG paths of the codec loop bodies with linear path constraints, bit-level "
+                  "provenance vectors composed across encoder and decoder, and table agreement on evaluated initialisers",
+        design="5 C07"),
 }
 
 NA = {
